@@ -65,7 +65,35 @@ POOL = [
 ]
 
 
+class _DT(datetime):
+    """a datetime subclass (pandas.Timestamp, freezegun, pendulum are such) is a DATE-TIME"""
+
+
+class _D(date):
+    pass
+
+
+class _I(int):
+    pass
+
+
+SUBCLASS = [False]          # toggled by build(): hand over instances of subclasses
+
+
 def py_value(v):
+    if SUBCLASS[0]:
+        k = v[0]
+        if k == "d":
+            return _D(v[1], v[2], v[3])
+        if k == "t":
+            d = _DT(*v[1:7])
+            return d.replace(tzinfo=UTC) if v[7] else d
+        if k == "i":
+            return _I(v[1] * v[2])
+    return _py_value(v)
+
+
+def _py_value(v):
     k = v[0]
     if k == "i":
         return v[1] * v[2]
@@ -84,6 +112,7 @@ def py_value(v):
 def build(rule, rnd):
     """vRecur from the supplied parts with key-case and scalar/list variants."""
     kw = {}
+    SUBCLASS[0] = rnd.random() < 0.3
     for name, vals in rule:
         key = S(name)
         key = key.lower() if rnd.random() < 0.5 else key
